@@ -13,7 +13,7 @@ from ..lin import Lin, eq, f_and, f_not, f_or, flit, ge, gt, le, lin, lt, ne, sh
 from ..regions import regions_of, frontier
 from ..values import *
 from ..wsumm import BUF, Summary, discover
-from .c16 import compound_ok, compound_padding_err
+from .c16 import compound_ok, compound_padding_err, compound_get_padding
 
 METHODS = ("calculate_size", "write_into_unchecked", "get_padding")
 
@@ -79,18 +79,7 @@ def run(ctx, res):
                        detail=("; ".join(probs) or why or str(kinds))[:300], pc=s2.pc)
                 n += 1
         # get_padding: the last member's
-        I = S.I
-        if B.gp:
-            for s, k, r in I.inline(B.gp, None, State(), [S.b]):
-                if isinstance(r, StructV) and r.variant == "None":
-                    good = solver.entails(s.pc, flit(eq(N, 0))) or any(l[0] == "b" and isinstance(l[1], tuple) and l[1][-1] == "has_padding" and l[2] is False for l in s.pc)
-                    res.ob(good, "compound-padding", B.gp, "CompoundBuilder::get_padding() is None only for an empty compound or a last member without padding", pc=s.pc)
-                elif isinstance(r, StructV) and r.variant == "Some":
-                    x = r.fields["0"]
-                    a = x.l.single_atom() if isinstance(x, IntV) else None
-                    good = bool(a) and a[0][0] == "elem" and a[0][3][-1] == "#padding" and solver.entails(s.pc, flit(eq(Lin.from_key(a[0][2]), N - 1)))
-                    res.ob(good, "compound-padding", B.gp, "CompoundBuilder::get_padding() is the last member's padding", detail=repr(r)[:200], pc=s.pc)
-                n += 1
+        n += compound_get_padding(F, B, res)
     # ---- PacketBuilder forwarding
     PB = bs.get("PacketBuilder")
     n_fw = 0
